@@ -268,6 +268,14 @@ def posthoc(run):
             continue
         if step["k"] == "mk" and step["cls"] == "Derivative" and out[1] == "Exception":
             continue                       # arity: more than one variable, raised early and late alike
+        # ... "works" must have been observed: some route returned a number for this very expression in
+        # this run (an expression that contains e.g. cos(inf) raises ValueError on every route alike)
+        w = run.world
+        name = step["e"] if step["k"] == "mk" else step["o"]
+        m = metas(w).get(name) if step["k"] == "asx" else None
+        et = _etree(w, step["e"]) if step["k"] == "mk" else (m["etree"] if m else None)
+        if et is None or not any(k[0] == et and any(o[0] == "num" for _, o, _ in ents) for k, ents in vg.items()):
+            continue
         st["candidates"] += 1
         viols.append(Violation("C06", "symbolic-route-raises", step["id"],
                                f"step {step['id']} {step['k']} {engine._step_args(step)} raised {out[1]}: {out[2][:200]} "
